@@ -635,10 +635,24 @@ class C10(verif.Spec):
     harness_link_lib = True
     harness_extra = ["-DDLIST_CONSISTENCY=1"]
     timeout_per_case = 5.0
-    partial_note = ""
-    assumptions = []
-    open_statements = []
-    trusted_base = []
+    partial_note = ("full for the bookkeeping invariant (all operations, all histories, eviction paths included), look-up / store "
+                    "refinement, channel switch and teardown; counters-exact holds modulo 256 for uint8_t n_subpages (F17, proved "
+                    "witness); held_page_intact proved for all operations except those that themselves take/release page "
+                    "references (get/ref/unref/is-cached/walk); hi_subno_agrees and walk order/termination (C17) not proved")
+    assumptions = ["clients pass only pointers they hold a reference on (the harness / driver enforce it: `rej handle`)",
+                   "0x100 <= pgno <= 0x8FF for put / hi_subno / foreach (asserted by cache_network_page_stat; callers guarantee it)",
+                   "subpage numbers and designation sets fit 16 bits; unsigned int counters do not overflow (2^32 events)",
+                   "malloc succeeds (the out-of-memory path of put is not modelled)",
+                   "store refinement (refines_map_put) assumes memory is not short - true in libzvbi 0.2 while the cache holds "
+                   "<= 0x800*80 pages (limit_unreachable_0_2); F17 shows the page count itself is not bounded"]
+    open_statements = ["held_page_intact_full", "hi_subno_agrees_full"]
+    trusted_base = ["lean/ZvbiModel/Cache/Model.lean: hand-written reading of src/cache.c (representation argued in NOTES/C10.md); "
+                    "tied to the code by the correspondence run: every answer carries a digest of the complete cache state",
+                    "translate/gen_cache.py (struct sizes, HASH_SIZE, death_row extent, limits; cross-checked by the `sizes` op)",
+                    "harness/cache_harness.c audit walker (independent recomputation of every list and counter after each op) and "
+                    "checks/C10.py `Abs` (abstract map oracle written from the property statement)",
+                    "the hash table is modelled as one MRU sequence restricted per bucket (no behaviour of cache.c depends on the "
+                    "bucket; the driver prints per bucket with HASH_SIZE from the translator)"]
 
     def model_lines(self, cases):
         p = subprocess.run([verif.model_exe(), "cache"], input=verif.flatten(cases).encode(), stdout=subprocess.PIPE,
